@@ -125,9 +125,39 @@ def _kname(key) -> str:
 FRESH = Fresh()
 
 
+class CodeRaised(Exception):
+    """The code under test raised on a matrix of the families (all finite, 2-d): a verdict, not a harness failure."""
+
+    def __init__(self, agg: str, exc: Exception):
+        super().__init__(f"{agg} raised {type(exc).__name__}: {str(exc)[:200]}")
+        self.agg = agg
+
+
+_GUARDED: dict = {}
+
+
+def _guard(cls):
+    """Same aggregator; an exception leaving aggregator(matrix) is tagged as coming from the code under test."""
+    if cls not in _GUARDED:
+        class Guarded(cls):
+            def __call__(self, *a, **k):
+                try:
+                    return super().__call__(*a, **k)
+                except Exception as e:                                  # noqa: BLE001
+                    raise CodeRaised(cls.__name__, e) from e
+        Guarded.__name__, Guarded.__qualname__ = cls.__name__, cls.__qualname__
+        _GUARDED[cls] = Guarded
+    return _GUARDED[cls]
+
+
 def _aggs():
     from torchjd.aggregation import IMTLG, AlignedMTL, ConFIG
-    return IMTLG, ConFIG, AlignedMTL
+    return _guard(IMTLG), _guard(ConFIG), _guard(AlignedMTL)
+
+
+def _raised_result(e: CodeRaised) -> dict:
+    return {"fails": [{"agg": e.agg, "e": 0, "what": "raised on a finite matrix of the family", "why": str(e),
+                       "want": "a vector", "got": "exception"}], "evals": 1, "worst": 0.0, "skipped": []}
 
 
 def run_pyth(scn: dict, exps: list[int], pool=FRESH) -> dict:
@@ -411,11 +441,21 @@ def run_history(item) -> dict:
     rng.shuffle(order)
     out: list = [None] * len(scns)
     for i in order:
-        out[i] = (run_pyth if scns[i]["fam"] == "pyth" else run_aligned)(scns[i], exps, pool)
+        try:
+            out[i] = (run_pyth if scns[i]["fam"] == "pyth" else run_aligned)(scns[i], exps, pool)
+        except CodeRaised as e:
+            out[i] = _raised_result(e)
     return {"results": out, "calls": pool.calls}
 
 
 def run_scenario(item) -> dict:
+    try:
+        return _run_scenario(item)
+    except CodeRaised as e:
+        return _raised_result(e)
+
+
+def _run_scenario(item) -> dict:
     scn, exps = item
     if scn["fam"] == "pyth":
         return run_pyth(scn, exps)
@@ -434,6 +474,16 @@ def _units(x: float) -> int:
 
 
 def random_episode(item) -> dict:
+    try:
+        return _random_episode(item, {})
+    except CodeRaised as e:                     # the episode is logged as "not finite": rejected by the trace spec
+        rec = _random_episode(item, {"dry": True})
+        rec["obs"]["finite"] = False
+        rec["raised"] = str(e)
+        return rec
+
+
+def _random_episode(item, opt: dict) -> dict:
     """Defining equalities of C17 evaluated in float64 on a random integer matrix; residuals in
     integer units of eps x (natural scale).  TLC decides whether the instance is admissible.
     item = (ep, seed) or (ep, seed, k): with k > 0 the aggregators are run on the WIDE presentation
@@ -461,7 +511,7 @@ def random_episode(item) -> dict:
     Xn = Xs.numpy()
     norms = np.linalg.norm(Xn, axis=1)
     ut = torch.tensor(u, dtype=torch.float64)
-    if min(norms) == 0:                       # a zero row: not full row rank, TLC will skip it
+    if min(norms) == 0 or opt.get("dry"):     # a zero row: not full row rank, TLC will skip it
         return rec
 
     def xdot(v: np.ndarray) -> np.ndarray:     # X @ v
